@@ -1,19 +1,34 @@
 ------------------------------ MODULE LogFrame ------------------------------
 (***************************************************************************)
 (* Append-only log framing (property C04, second sentence): a record is a  *)
-(* 6-byte header (type, payload size) followed by the payload; an append   *)
-(* is WriteHeader then WritePayload; a crash can leave the file torn at    *)
-(* any byte length.  Reading yields exactly the records that were          *)
+(* fixed-size header (type, payload size) followed by the payload; an      *)
+(* append is WriteHeader then WritePayload; a crash can leave the file     *)
+(* torn at any byte length.  Reading yields exactly the records that were  *)
 (* completely written - never a truncated, padded or invented record.      *)
+(*                                                                         *)
+(* Second part (append after a torn tail): after a crash the next process  *)
+(* appends to the same file.  The file is modelled byte by byte (each byte *)
+(* knows the record it belongs to and its offset in it) and the reader as  *)
+(* the parser it is: it trusts the size field of a header it has read      *)
+(* completely and takes that many following bytes, whatever they are.  A   *)
+(* record the parser returns is GENUINE when its bytes are exactly the     *)
+(* bytes of one appended record.  The intended design discards a torn tail *)
+(* when the log is opened for appending (Reopen), so that                  *)
+(*   Inv_AppendAfterTorn  after any crash, reopen and append the reader    *)
+(*                        returns exactly the records that were complete   *)
+(*                        at the crash followed by the new record, all     *)
+(*                        genuine - no invented and no lost record.        *)
+(* NaiveAppendBreaks shows (as a checked operator over every torn length)  *)
+(* that appending behind the torn tail does not have this property.        *)
 (***************************************************************************)
 EXTENDS Integers, Sequences, TLC, Json
 
-CONSTANT Sizes     \* payload sizes of the records appended, in order (generated)
+CONSTANT Sizes,    \* payload sizes of the records appended, in order (generated)
+         HeaderLen \* 6 for storage/filelog (uint16 type + uint32 size), 10 for the protolog files of server/mutationlog.go
 
 VARIABLES len,     \* current file length in bytes
           nrec     \* number of records whose append has been started
 
-HeaderLen == 6
 RECURSIVE EndOf(_)
 EndOf(k) == IF k = 0 THEN 0 ELSE EndOf(k - 1) + HeaderLen + Sizes[k]
 Total == EndOf(Len(Sizes))
@@ -35,4 +50,56 @@ Inv_ReadIsPrefix == Complete(len) <= nrec /\ (len = Total => Complete(len) = Len
 Inv_NoPartial == \A k \in 1..Len(Sizes) : (len < EndOf(k)) => Complete(len) < k
 
 Emit == (len = Total) => PrintT(ToJson([b \in 1..(Total + 1) |-> Complete(b - 1)]))
+
+(***************************************************************************)
+(* Append after a torn tail                                                *)
+(***************************************************************************)
+\* the bytes of record k (k = Len(Sizes) + 1 is the record appended after the crash, of the
+\* size of the first record): <<record, offset>>, offsets 1..HeaderLen are the header
+SizeOf(k) == IF k <= Len(Sizes) THEN Sizes[k] ELSE Sizes[1]
+BytesOf(k) == [i \in 1..(HeaderLen + SizeOf(k)) |-> <<k, i>>]
+RECURSIVE FileUpTo(_)
+FileUpTo(k) == IF k = 0 THEN <<>> ELSE FileUpTo(k - 1) \o BytesOf(k)
+FullFile == FileUpTo(Len(Sizes))
+Torn(b) == SubSeq(FullFile, 1, b)
+
+\* the parser: at position p (0-based) it needs a complete header, which must be the header of
+\* some record k (offsets 1..HeaderLen in order - in this model headers are always written by
+\* the appender, so a header position holds either a genuine header or payload bytes of another
+\* record; payload bytes read as a header are an invented record of unknown size: the parser
+\* stops there and reports it)
+IsHeaderAt(f, p) == /\ p + HeaderLen <= Len(f)
+                    /\ \A i \in 1..HeaderLen : f[p + i] = <<f[p + 1][1], i>>
+RECURSIVE Parse(_, _)
+Parse(f, p) ==
+    IF p >= Len(f) THEN <<>>
+    ELSE IF p + HeaderLen > Len(f) THEN <<>>                       \* incomplete header at the end: ignored
+    ELSE IF ~IsHeaderAt(f, p) THEN <<[rec |-> 0, genuine |-> FALSE]>>  \* garbage parsed as a header
+    ELSE LET k == f[p + 1][1]
+             e == p + HeaderLen + SizeOf(k)
+         IN IF e > Len(f) THEN <<>>                                 \* payload shorter than announced: ignored
+            ELSE <<[rec |-> k, genuine |-> \A i \in 1..SizeOf(k) : f[p + HeaderLen + i] = <<k, HeaderLen + i>>]>>
+                 \o Parse(f, e)
+Read(f) == Parse(f, 0)
+
+NewRec == Len(Sizes) + 1
+\* intended: opening for append discards the torn tail
+Reopen(f) == SubSeq(f, 1, EndOf(Complete(Len(f))))
+AppendIntended(b) == Reopen(Torn(b)) \o BytesOf(NewRec)
+AppendNaive(b) == Torn(b) \o BytesOf(NewRec)
+ExpectedAfterAppend(b) == [i \in 1..(Complete(b) + 1) |->
+                              [rec |-> IF i <= Complete(b) THEN i ELSE NewRec, genuine |-> TRUE]]
+
+\* checked for the current length of every reachable state, i.e. for every torn length
+Inv_AppendAfterTorn == Read(AppendIntended(len)) = ExpectedAfterAppend(len)
+\* reading the torn file itself (before any append) yields the complete records, all genuine
+Inv_ReadTornGenuine == Read(Torn(len)) = [i \in 1..Complete(len) |-> [rec |-> i, genuine |-> TRUE]]
+\* (documentation of why Reopen is needed) lengths at which appending behind the torn tail
+\* loses or invents a record
+NaiveBroken(b) == Read(AppendNaive(b)) # ExpectedAfterAppend(b)
+NaiveAppendBreaks == \A k \in 1..Len(Sizes) : \A b \in (EndOf(k - 1) + 1)..(EndOf(k) - 1) : NaiveBroken(b)
+ASSUME NaiveAppendBreaks
+
+\* expected reader output after reopen + append, for every torn length: number of old records kept
+EmitAppend == (len = Total) => PrintT(ToJson([after_append |-> [b \in 1..(Total + 1) |-> Complete(b - 1) + 1]]))
 =============================================================================
